@@ -214,6 +214,122 @@ def crash_signature(tail):
     return "unknown"
 
 
+def c18_variants(prop, tier, seed, outdir):
+    """C18 (iv): build cmd/ctprog with five build-tag sets, run each with the same seed and compare the
+    transcripts line by line. 'C' lines (common part) must agree along the chain default~generic,
+    default~purego, default~constantTime, constantTime~constantTime+purego (equality is transitive, so every
+    variant is compared with every other); 'F' lines (full library) along default~generic, default~purego.
+    A differing line whose operands (text before ' => ', which carries operand fingerprints) are identical is a
+    violation class keyed by its op; lines whose operands already differ are inherited divergences and only
+    counted. Returns a summary-shaped dict that main() merges like a child summary."""
+    t0 = time.time()
+    tagsets = ["verif", "verif generic", "verif purego", "verif constantTime", "verif constantTime purego"]
+    chain = [("C", "verif", "verif generic"), ("C", "verif", "verif purego"), ("C", "verif", "verif constantTime"),
+             ("C", "verif constantTime", "verif constantTime purego"),
+             ("F", "verif", "verif generic"), ("F", "verif", "verif purego")]
+    res = dict(property=prop, tier=tier, seed=seed, part="variants", evaluations=0, distinct_nontrivial=0, classes={}, ops=[],
+               samples=[], violations=[], notes={}, inconclusive=[], assumptions=[],
+               rule="build-variant differential: one evaluation = one pair of corresponding transcript lines of cmd/ctprog "
+                    "compared between two build-tag sets; distinct = distinct (op, operands) lines; all lines are non-trivial")
+    label = lambda tags: "+".join(tags.split()[1:]) or "default"
+    suffix = "" if os.path.realpath(REPO) == "/repo" else "-" + hashlib.sha1(REPO.encode()).hexdigest()[:8]
+    procs = {}
+    for tags in tagsets:
+        out = os.path.join(BUILD, "ctprog-" + re.sub(r"[^A-Za-z0-9]+", "_", tags) + suffix)
+        if not build("./cmd/ctprog", out, tags=tags):
+            res["inconclusive"].append("ctprog variant [%s] failed to build" % tags)
+            continue
+        tf = os.path.join(outdir, "ctprog-%s.txt" % label(tags))
+        procs[tags] = (subprocess.Popen([out, "-seed", str(seed), "-tier", tier, "-out", tf],
+                                        stdout=subprocess.PIPE, stderr=subprocess.STDOUT, text=True), tf)
+    lines = {}
+    tmo = int(os.environ.get("VERIF_TIMEOUT", "5400" if tier == "thorough" else "1500"))
+    for tags, (p, tf) in procs.items():
+        try:
+            outp, _ = p.communicate(timeout=tmo)
+        except subprocess.TimeoutExpired:
+            p.kill()
+            res["inconclusive"].append("ctprog variant [%s]: watchdog fired" % tags)
+            continue
+        if p.returncode != 0:
+            key = "%s/variant/%s/ctprog/process-died" % (prop, label(tags))
+            res["violations"].append(dict(key=key, what="transcript program died (uncaught fatal error in code under test)", count=1,
+                                          detail=dict(rc=p.returncode, output_tail=(outp or "")[-3000:], tags=tags)))
+            continue
+        ls = [l.rstrip("\n") for l in open(tf, errors="replace")]
+        lines[tags] = dict(C=[l for l in ls if l.startswith("C ")], F=[l for l in ls if l.startswith("F ")],
+                           notes=[l for l in ls if l.startswith("#")])
+        res["notes"]["lines_%s" % label(tags)] = len(lines[tags]["C"]) + len(lines[tags]["F"])
+        # panics that no step is allowed to raise
+        for i, l in enumerate(ls):
+            if l.endswith("=> PANIC!"):
+                op = l.split(" ")[1]
+                key = "%s/variant/%s/%s/panic" % (prop, label(tags), op)
+                note = ls[i + 1] if i + 1 < len(ls) and ls[i + 1].startswith("#") else ""
+                v = next((v for v in res["violations"] if v["key"] == key), None)
+                if v is None:
+                    res["violations"].append(dict(key=key, what="panic in a transcript step that must not panic", count=1,
+                                                  detail=dict(tags=tags, line=l[:600], panic=note[:600])))
+                else:
+                    v["count"] += 1
+    seen = set()
+    ops = set()
+    viol = {}
+    for part, ta, tb in chain:
+        if ta not in lines or tb not in lines:
+            continue
+        a, b = lines[ta][part], lines[tb][part]
+        pair = "%s-vs-%s" % (label(ta), label(tb))
+        cls = "variant/%s/%s" % (pair, "common" if part == "C" else "full")
+        if len(a) != len(b):
+            key = "%s/variant/%s/%s/line-count" % (prop, pair, "common" if part == "C" else "full")
+            viol[key] = dict(key=key, what="transcripts have different numbers of lines (%d vs %d)" % (len(a), len(b)), count=1,
+                             detail=dict(tagsA=ta, tagsB=tb))
+        n_inherit = 0
+        for x, y in zip(a, b):
+            res["evaluations"] += 1
+            res["classes"][cls] = res["classes"].get(cls, 0) + 1
+            op = x.split(" ")[1]
+            ops.add("ctprog:" + op)
+            seen.add(x.split(" => ")[0])
+            if x == y:
+                continue
+            if x.split(" => ")[0] != y.split(" => ")[0]:
+                n_inherit += 1
+                continue
+            key = "%s/variant/%s/%s" % (prop, pair, op)
+            v = viol.get(key)
+            if v is None:
+                viol[key] = dict(key=key, what="same step, same operands, different result in builds [%s] and [%s]" % (ta, tb), count=1,
+                                 detail=dict(tagsA=ta, tagsB=tb, lineA=x[:1500], lineB=y[:1500],
+                                             reproduce="cd harness && go build -tags '<tags>' -o ctprog ./cmd/ctprog && ./ctprog -seed %d -tier %s" % (seed, tier)))
+            else:
+                v["count"] += 1
+        res["notes"]["inherited_divergences_%s_%s" % (pair, part)] = n_inherit
+        if part == "C" and a:
+            res["samples"].append(dict(variant_pair=pair, example_line=a[len(a) // 2][:300]))
+    res["violations"] += list(viol.values())
+    res["distinct_nontrivial"] = len(seen)
+    res["ops"] = sorted(ops)
+    res["wall_s"] = round(time.time() - t0, 2)
+    log("  variants: %d line pairs compared over %d builds, %d violation classes, %.1fs" %
+        (res["evaluations"], len(lines), len(res["violations"]), res["wall_s"]))
+    if len(lines) < len(tagsets) and not res["inconclusive"]:
+        res["inconclusive"].append("only %d of %d ctprog variants produced a transcript" % (len(lines), len(tagsets)))
+    return res
+
+
+def crash_signature(tail):
+    for pat in [r"fatal error: ([^\n]+)", r"panic: ([^\n]+)", r"(checkptr[^\n]+)", r"SIGQUIT"]:
+        m = re.search(pat, tail)
+        if m:
+            s = m.group(0)
+            s = re.sub(r"0x[0-9a-f]+", "0x?", s)
+            s = re.sub(r"\d{3,}", "N", s)
+            return s[:120]
+    return "unknown"
+
+
 def main():
     args = sys.argv[1:]
     if len(args) >= 2 and args[0] == "--replay":
@@ -303,6 +419,14 @@ def main():
                 k = race_key(rep)
                 ent = race_distinct.setdefault(k, dict(count=0, text=rep["text"]))
                 ent["count"] += 1
+
+
+    if prop == "C18":
+        vs = c18_variants(prop, tier, seed, outdir)
+        summaries.append(vs)
+        for v in vs["violations"]:
+            violations.setdefault(v["key"], dict(v, part="variants"))
+        inconclusive += vs["inconclusive"]
 
     for k, ent in race_distinct.items():
         stacks = ent["text"]
